@@ -15,18 +15,19 @@ import (
 
 type inputReader struct {
 	io.Reader
-	rs  io.ReadSeeker
-	buf *bytes.Buffer
+	rs    io.ReadSeeker
+	buf   *bytes.Buffer
+	start int64 // where the reading started, the offsets are relative to this
 }
 
 func newInputReader(r io.Reader) *inputReader {
 	if r, ok := r.(io.ReadSeeker); ok {
-		if _, err := r.Seek(0, io.SeekCurrent); err == nil {
-			return &inputReader{r, r, nil}
+		if start, err := r.Seek(0, io.SeekCurrent); err == nil {
+			return &inputReader{r, r, nil, start}
 		}
 	}
 	var buf bytes.Buffer // do not use strings.Builder because we need to Reset
-	return &inputReader{io.TeeReader(r, &buf), nil, &buf}
+	return &inputReader{io.TeeReader(r, &buf), nil, &buf, 0}
 }
 
 func (ir *inputReader) getContents(offset *int64, line *int) string {
@@ -36,7 +37,7 @@ func (ir *inputReader) getContents(offset *int64, line *int) string {
 	if current, err := ir.rs.Seek(0, io.SeekCurrent); err == nil {
 		defer ir.rs.Seek(current, io.SeekStart)
 	}
-	_, _ = ir.rs.Seek(0, io.SeekStart)
+	_, _ = ir.rs.Seek(ir.start, io.SeekStart)
 	const bufSize = 16 * 1024
 	var buf bytes.Buffer // do not use strings.Builder because we need to Reset
 	for offset != nil && *offset > bufSize*3/4 {
